@@ -19,10 +19,10 @@ func TestSmoke(t *testing.T) {
 	}
 	snapdir := filepath.Join(p.Root, "__snapshots__")
 	scn := &Scenario{Roots: []string{p.Root}, Nodes: map[string]*Node{
-		"TestA":        {Calls: []Call{{API: "snap", Val: "hello"}, {API: "json", Val: `{"a":1}`}, {API: "ssnap", Val: "alone"}}, Subs: []string{"sub one"}},
+		"TestA":         {Calls: []Call{{API: "snap", Val: "hello"}, {API: "json", Val: `{"a":1}`}, {API: "ssnap", Val: "alone"}}, Subs: []string{"sub one"}},
 		"TestA/sub_one": {Calls: []Call{{API: "snap", Val: "in sub", Via: "helper"}}},
-		"TestB":        {Skip: "Skip", Calls: []Call{{API: "snap", Val: "never"}}},
-		"FuzzX/seed#0": {Calls: []Call{{API: "snap", Val: "fuzz"}}},
+		"TestB":         {Skip: "Skip", Calls: []Call{{API: "snap", Val: "never"}}},
+		"FuzzX/seed#0":  {Calls: []Call{{API: "snap", Val: "fuzz"}}},
 	}}
 	res := p.RunChild(RunOpt{PkgDir: "", Scenario: scn})
 	if !res.Complete {
